@@ -83,6 +83,9 @@ impl InstructionGenerator {
                     pos,
                 );
                 // jump out
+                // (if the increment of NEXT fails, RESUME NEXT continues here, behind
+                // the loop, not in the other copy of the body)
+                self.mark_statement_address();
                 self.jump("out-of-for", pos);
                 // PositiveOrZero: ?
                 self.label("test-positive-or-zero", pos);
